@@ -149,6 +149,7 @@ ob(name='lifetime.expected_destruction', kind='FC+', props=['C05', 'C06', 'C13',
    bound='loop-free after fixing the heap shape: monitor unsequenced / first in line / behind one pending predecessor with free bounds and count')
 ob(name='lifetime.requirement_released_first', kind='FC+', props=['C13', 'C14', 'C15'], unit='lifetime', harness='h_lifetime.c', entry='l_released_first', variants=_SEQ3[:2], unwind=4, min_reach=0)
 ob(name='lifetime.two_requirements', kind='FC+', props=['C13', 'C14'], unit='lifetime', harness='h_lifetime.c', entry='l_two_monitors', unwind=4)
+ob(name='lifetime.two_requirements_released', kind='FC+', props=['C13', 'C14', 'C15'], unit='lifetime', harness='h_lifetime.c', entry='l_two_released', unwind=4)
 ob(name='lifetime.copy_move_assign', kind='FC+', props=['C13', 'C14'], unit='lifetime', harness='h_lifetime.c', entry='l_copy_move_assign', unwind=4)
 
 # ----------------------------------------------------------------------------------------------
